@@ -481,7 +481,7 @@ def runner_main(jobfile, outfile):
     return 0
 
 
-def run_jobs(jobs, nproc, name, timeout):
+def run_jobs(jobs, nproc, name, timeout, module='vf.drivers.persistent_api'):
     """Run the replays in `nproc` runner processes (own sessions; killed by process group at the end)."""
     if not jobs:
         return []
@@ -496,7 +496,7 @@ def run_jobs(jobs, nproc, name, timeout):
         jf, of = os.path.join(d, 'jobs%d.json' % n), os.path.join(d, 'out%d.json' % n)
         with open(jf, 'w') as f:
             json.dump(ch, f)
-        p = subprocess.Popen([PY, '-m', 'vf.drivers.persistent_api', '--runner', jf, of], cwd=VERIF, env=env,
+        p = subprocess.Popen([PY, '-m', module, '--runner', jf, of], cwd=VERIF, env=env,
                              stdout=subprocess.PIPE, stderr=subprocess.STDOUT, start_new_session=True)
         procs.append((p, of, len(ch)))
     out, t0 = [], time.time()
